@@ -398,6 +398,43 @@ def r5(ctx):
     ctx.ob(pb.qual, "sub-instance-parameters-are-a-copy", ok and len(stores) >= 1, pb.loc(), "sub-instances modify sub_param = copy(param), never param itself" if ok else "sub_param is not a copy of param")
 
 
+def _table_mutators(ctx):
+    """VariantTable methods that store through self, directly or through another method of the table"""
+    vt = {q.rsplit(".", 1)[1]: f for q, f in ctx.prog.functions.items() if q.startswith("whatshap.vcf.VariantTable.") and q.count(".") == 3}
+    mutating = {n_ for n_, f in vt.items() if n_ != "__init__" and any(util.root_name(s_.target) == "self" for s_ in util.store_sites(f.node))}
+    grew = True
+    while grew:
+        grew = False
+        for n_, f in vt.items():
+            if n_ not in mutating and n_ != "__init__" and any(isinstance(c_.func, ast.Attribute) and u(c_.func.value) == "self" and c_.func.attr in mutating for c_ in ctx.prog.calls_in(f.node)):
+                mutating.add(n_)
+                grew = True
+    return mutating
+
+
+def r7(ctx):
+    """A per-sample (per-iteration) working copy of the chromosome's variant table that is edited must share nothing with the
+    table the other iterations read: `copy(table)` shares the row lists, so rows deleted for one sample are gone for the next,
+    and which sample comes first depends on the hash seed (frozenset of sample names)."""
+    muts = _table_mutators(ctx)
+    n = 0
+    for q, fi in sorted(ctx.prog.functions.items()):
+        if not q.startswith("whatshap.cli.") or fi.module.kind != "py":
+            continue
+        for st in walk_function(fi.node):
+            if not (isinstance(st, ast.Assign) and len(st.targets) == 1 and isinstance(st.targets[0], ast.Name) and isinstance(st.value, ast.Call) and u(st.value.func) in ("copy", "copy.copy", "deepcopy", "copy.deepcopy") and len(st.value.args) == 1):
+                continue
+            name = st.targets[0].id
+            edited = [c for c in ctx.prog.calls_in(fi.node) if isinstance(c.func, ast.Attribute) and u(c.func.value) == name and c.func.attr in muts]
+            if not edited:
+                continue
+            n += 1
+            deep = u(st.value.func).endswith("deepcopy")
+            ctx.analysed_functions.add(q)
+            ctx.ob(q, "edited-table-copy-is-deep:%s" % name, deep, fi.loc(st), "%s = deepcopy(%s) is edited (%s) without touching the original" % (name, u(st.value.args[0]), edited[0].func.attr) if deep else "%s = %s is a shallow copy that is then edited with %s(): the row lists are shared, so the table of the following samples shrinks, and the sample order depends on PYTHONHASHSEED" % (name, u(st.value), edited[0].func.attr))
+    ctx.require(n >= 1, "no edited copy of a variant table found in whatshap.cli (scan broken)")
+
+
 def r6(ctx):
     """Repetition: an output that the C++ side opens in append mode must be truncated by the Python side first."""
     src = open(ctx.prog.real("src/caller.cpp"), encoding="utf-8", errors="replace").read()
@@ -423,7 +460,8 @@ RULES = [
     ("C16.R4", "no pointer-keyed containers in the C++ sources", r4),
     ("C16.R5", "shared configuration objects are not mutated per sample/block", r5),
     ("C16.R6", "append-mode outputs are truncated first (repetition)", r6),
+    ("C16.R7", "edited per-sample copies of the variant table are deep copies", r7),
 ]
 # instance floors: about 60% of the instances confirmed by hand on the reference tree -- a rule that suddenly matches far fewer
 # sites fails the run (exit 2); a clean-up that merges two sites into one does not
-FLOORS = {"C16.R1": 6, "C16.R2": 3, "C16.R3": 3, "C16.R4": 1, "C16.R5": 1, "C16.R6": 1}
+FLOORS = {"C16.R1": 6, "C16.R2": 3, "C16.R3": 3, "C16.R4": 1, "C16.R5": 1, "C16.R6": 1, "C16.R7": 1}
